@@ -25,6 +25,7 @@ RULE = (
     "object, forged second instance, the class}; the same look-alikes stored through an attribute first, then instances leaving that attribute out (new / copy / deepcopy / updated), next to a subclass overriding the default; attribute get/set/del; non-trivial = nested "
     "shape, or a look-alike argument"
 )
+RULE += ' Rounds 10-11: DEEP chains of 4-8 (12) containers under one state attribute; attributes whose annotation admits MISSING with another default, given an explicit MISSING.'
 ASSUMPTIONS = [
     "a round trip that raises for reasons unrelated to Missing (pickling a State instance) "
     "yields no value and is counted as skipped",
